@@ -181,9 +181,21 @@ Definition pick_ety (tys : list ty) : ty :=
 Definition elem_types_consistent (tys : list ty) : bool :=
   forallb (fun t => is_dyn t || ty_eqb t (pick_ety tys)) tys.
 
+(* a collection stores raw element values: an element of the dynamic pseudo-type
+   (a null or an unknown) reads back as a null/unknown of the element type *)
+Definition retype_dyn (ety : ty) (v : val) : val :=
+  match v with
+  | VNull TDyn => VNull ety
+  | VUnk TDyn r => VUnk ety r
+  | VMark m (VNull TDyn) => VMark m (VNull ety)
+  | VMark m (VUnk TDyn r) => VMark m (VUnk ety r)
+  | _ => v
+  end.
+
 Definition list_val (vs : list val) : option val :=        (* None = panic *)
   let tys := map type_of vs in
-  if elem_types_consistent tys then Some (VList (pick_ety tys) vs) else None.
+  if elem_types_consistent tys
+  then Some (VList (pick_ety tys) (map (retype_dyn (pick_ety tys)) vs)) else None.
 
 (* keys sorted as cty orders map and object keys *)
 Definition sort_kvs {A} (kvs : list (list Z * A)) : list (list Z * A) :=
@@ -191,7 +203,9 @@ Definition sort_kvs {A} (kvs : list (list Z * A)) : list (list Z * A) :=
 
 Definition map_val (kvs : list (list Z * val)) : option val :=
   let tys := map (fun kv => type_of (snd kv)) kvs in
-  if elem_types_consistent tys then Some (VMap (pick_ety tys) (sort_kvs kvs)) else None.
+  if elem_types_consistent tys
+  then Some (VMap (pick_ety tys) (sort_kvs (map (fun kv => (fst kv, retype_dyn (pick_ety tys) (snd kv))) kvs)))
+  else None.
 Definition obj_val (kvs : list (list Z * val)) : option val := Some (VObj (sort_kvs kvs)).
 
 (* cty.SetVal: marks are hoisted to the set, duplicates (wholly known, equal)
@@ -210,7 +224,7 @@ Definition dedupe_known (vs : list val) : list val := dedupe_from [] vs.
 Definition set_val (vs : list val) : option val :=
   let tys := map type_of vs in
   if elem_types_consistent tys
-  then Some (with_marks (VSet (pick_ety tys) (dedupe_known (map unmark_deep vs)))
+  then Some (with_marks (VSet (pick_ety tys) (map (retype_dyn (pick_ety tys)) (dedupe_known (map unmark_deep vs))))
                         (marks_unions (map deep_marks vs)))
   else None.
 
@@ -310,15 +324,16 @@ Fixpoint nest (mk : list (list Z * val) -> option val) (n : nat)
 Definition prepare_body_val (v : val) (b : abody) : val := with_marks v (bmarks b).
 
 (* BlockList/BlockTuple/BlockSet: decode each block in order, stop at the first
-   unknown body (after decoding it).  Result: element values, diagnostics, "an
-   unknown body was met". *)
+   unknown body (after decoding it).  Result: element values, diagnostics, and
+   the value marks of the unknown body that was met, if any (the unknown result
+   is given the marks of that body: prepareBodyVal). *)
 Fixpoint seq_blocks (f : ablock -> val * list ddiag) (bl : list ablock)
-  : list val * list ddiag * bool :=
+  : list val * list ddiag * option marks :=
   match bl with
-  | [] => ([], [], false)
+  | [] => ([], [], None)
   | b :: r =>
       let '(v, ds) := f b in
-      if bunknown (bbody b) then ([], ds, true)
+      if bunknown (bbody b) then ([], ds, Some (bmarks (bbody b)))
       else let '(vs, ds', u) := seq_blocks f r in
            (prepare_body_val v (bbody b) :: vs, ds ++ ds', u)
   end.
@@ -331,13 +346,13 @@ Definition count_diags (n mn mx : Z) : list ddiag :=
    block whose labels were already used is reported and skipped. *)
 Fixpoint keyed_blocks (nl : nat) (f : ablock -> val * list ddiag) (bl : list ablock)
                       (acc : list (list (list Z) * val)) (dacc : list ddiag)
-  : list (list (list Z) * val) * list ddiag * bool :=
+  : list (list (list Z) * val) * list ddiag * option marks :=
   match bl with
-  | [] => (acc, dacc, false)
+  | [] => (acc, dacc, None)
   | b :: r =>
-      if bunknown (bbody b) then (acc, dacc, true)
+      if bunknown (bbody b) then (acc, dacc, Some (bmarks (bbody b)))
       else if (length (blabels b) <? nl)%nat || (nl =? 0)%nat
-      then (acc, dacc ++ [DDPanic P_MapLabels], false)
+      then (acc, dacc ++ [DDPanic P_MapLabels], None)
       else
         let '(v, ds) := f b in
         let v' := prepare_body_val v (bbody b) in
@@ -392,8 +407,9 @@ Fixpoint sdecode (s : spec) (c : ctx) (ct : content) (lbls : list (list Z)) {str
       let '(vs, ds, unk) :=
         seq_blocks (fun b => via_body (implied_schema n) (sdecode n c) (bbody b) (blabels b))
                    (blocks_of tn (ct_blocks ct)) in
-      if unk then (VUnk (TList (implied_type n)) rf_none, ds)
-      else
+      match unk with
+      | Some m => (with_marks (VUnk (TList (implied_type n)) rf_none) m, ds)
+      | None =>
         let ds := ds ++ count_diags (Z.of_nat (length vs)) mn mx in
         match vs with
         | [] => (VList (implied_type n) [], ds)
@@ -404,18 +420,22 @@ Fixpoint sdecode (s : spec) (c : ctx) (ct : content) (lbls : list (list Z)) {str
             | HUnsup => (dyn_val, ds ++ [DDUnsupported])
             end
         end
+      end
   | SBlockTuple tn n mn mx =>
       let '(vs, ds, unk) :=
         seq_blocks (fun b => via_body (implied_schema n) (sdecode n c) (bbody b) (blabels b))
                    (blocks_of tn (ct_blocks ct)) in
-      if unk then (VUnk TDyn rf_none, ds)
-      else (VTuple vs, ds ++ count_diags (Z.of_nat (length vs)) mn mx)
+      match unk with
+      | Some m => (with_marks (VUnk TDyn rf_none) m, ds)
+      | None => (VTuple vs, ds ++ count_diags (Z.of_nat (length vs)) mn mx)
+      end
   | SBlockSet tn n mn mx =>
       let '(vs, ds, unk) :=
         seq_blocks (fun b => via_body (implied_schema n) (sdecode n c) (bbody b) (blabels b))
                    (blocks_of tn (ct_blocks ct)) in
-      if unk then (VUnk (TSet (implied_type n)) rf_none, ds)
-      else
+      match unk with
+      | Some m => (with_marks (VUnk (TSet (implied_type n)) rf_none) m, ds)
+      | None =>
         let ds := ds ++ count_diags (Z.of_nat (length vs)) mn mx in
         match vs with
         | [] => (VSet (implied_type n) [], ds)
@@ -426,6 +446,7 @@ Fixpoint sdecode (s : spec) (c : ctx) (ct : content) (lbls : list (list Z)) {str
             | HUnsup => (dyn_val, ds ++ [DDUnsupported])
             end
         end
+      end
   | SBlockMap tn ls n =>
       let it := iter_ty (length ls) TMap (implied_type n) in
       if has_dyn it then (dyn_val, [DDPanic P_MapDynamic])
@@ -434,26 +455,32 @@ Fixpoint sdecode (s : spec) (c : ctx) (ct : content) (lbls : list (list Z)) {str
           keyed_blocks (length ls)
             (fun b => via_body (implied_schema n) (sdecode n c) (bbody b) (skipn (length ls) (blabels b)))
             (blocks_of tn (ct_blocks ct)) [] [] in
-        if unk then (VUnk it rf_none, ds)
-        else if panicked ds then (dyn_val, ds)
-        else
-          match items with
-          | [] => (VMap (implied_type n) [],      (* cty.MapValEmpty(s.Nested.impliedType()) *)
-                   ds ++ if (1 <? length ls)%nat then [DDNote N_MultiLabelEmpty] else [])
-          | _ => or_panic (nest map_val (length ls) items) ds
-          end
+        match unk with
+        | Some m => (with_marks (VUnk it rf_none) m, ds)
+        | None =>
+          if panicked ds then (dyn_val, ds)
+          else
+            match items with
+            | [] => (VMap (implied_type n) [],      (* cty.MapValEmpty(s.Nested.impliedType()) *)
+                     ds ++ if (1 <? length ls)%nat then [DDNote N_MultiLabelEmpty] else [])
+            | _ => or_panic (nest map_val (length ls) items) ds
+            end
+        end
   | SBlockObject tn ls n =>
       let '(items, ds, unk) :=
         keyed_blocks (length ls)
           (fun b => via_body (implied_schema n) (sdecode n c) (bbody b) (skipn (length ls) (blabels b)))
           (blocks_of tn (ct_blocks ct)) [] [] in
-      if unk then (VUnk TDyn rf_none, ds)
-      else if panicked ds then (dyn_val, ds)
-      else
-        match items with
-        | [] => (VObj [], ds)
-        | _ => or_panic (nest obj_val (length ls) items) ds
-        end
+      match unk with
+      | Some m => (with_marks (VUnk TDyn rf_none) m, ds)
+      | None =>
+        if panicked ds then (dyn_val, ds)
+        else
+          match items with
+          | [] => (VObj [], ds)
+          | _ => or_panic (nest obj_val (length ls) items) ds
+          end
+      end
   | SBlockAttrs tn ety req =>
       match blocks_of tn (ct_blocks ct) with
       | [] => (VNull (TMap ety), if req then [DDErr E_MissingBlock] else [])
